@@ -222,10 +222,8 @@ theorem sameMembers_self (a : List Str) : sameMembers a a = true := by
   simp [sameMembers]
 
 /-- The status-and-header part of the judged response predicate: the model's answer always gets
-"ok".  PARTIAL with respect to the whole `verdictResp`: the trailer part (`verdictRespTrailers`:
-announced and unannounced trailers reach the client) has no theorem; it is modelled
-(`shallowCopyTrailers`, `clientTrailers`) and judged on every case of the stream c04.resp. -/
-theorem C04_response_head_model_verdict_ok_partial (hl sk : List Str) (hc : CanonicalNames hl) (repl : Str → Str)
+"ok" (no side condition on trailers needed). -/
+theorem C04_response_head_model_verdict_ok (hl sk : List Str) (hc : CanonicalNames hl) (repl : Str → Str)
     (down : Rules) (pre : Hdr) (res : Response) (hg : Good res.header) (hni : nonInterfering down = true) :
     verdictRespHead hl sk repl down pre res (respond hl sk repl down pre res).status
       (respond hl sk repl down pre res).header = "ok" := by
@@ -245,6 +243,34 @@ theorem C04_response_head_model_verdict_ok_partial (hl sk : List Str) (hc : Cano
   unfold verdictRespHead
   rw [respond_status, hfind]
   simp
+
+/-- Trailers reach the client unchanged — announced ones under their own names, and as soon as one
+trailer was not announced all of them through `Trailer:`-prefixed keys — for every trailer map
+and every response, under the side conditions of `TrailerSide` (what net/http guarantees about
+`res.Trailer`; trailer names and header names do not collide).  "Reach the client" is
+`clientTrailers`: the net/http server rule for which keys of the final header map are sent as trailers. -/
+theorem C04_trailers_preserved (hl sk : List Str) (repl : Str → Str) (down : Rules) (pre : Hdr) (res : Response)
+    (hs : TrailerSide (mergedHeader hl sk repl down pre res) res) (k : Str) :
+    (clientTrailers (respond hl sk repl down pre res)).vals k = res.trailer.vals k :=
+  clientTrailers_respond hl sk repl down pre res hs k
+
+/-- The whole judged response predicate (status, headers, trailers): the model's answer always
+gets "ok". (The same `verdictResp` is applied by the driver to the implementation's answers.) -/
+theorem C04_response_model_verdict_ok (hl sk : List Str) (hc : CanonicalNames hl) (repl : Str → Str)
+    (down : Rules) (pre : Hdr) (res : Response) (hg : Good res.header) (hni : nonInterfering down = true)
+    (hs : TrailerSide (mergedHeader hl sk repl down pre res) res) :
+    verdictResp hl sk repl down pre res (respond hl sk repl down pre res).status
+      (respond hl sk repl down pre res).header (clientTrailers (respond hl sk repl down pre res)) = "ok" := by
+  unfold verdictResp
+  rw [C04_response_head_model_verdict_ok hl sk hc repl down pre res hg hni]
+  simp only [bne_self_eq_false, Bool.false_eq_true, if_false]
+  unfold verdictRespTrailers
+  have : (res.trailer.keys ++ (clientTrailers (respond hl sk repl down pre res)).keys).find?
+      (fun k => (clientTrailers (respond hl sk repl down pre res)).vals k != res.trailer.vals k) = none := by
+    rw [List.find?_eq_none]
+    intro k _
+    simp [C04_trailers_preserved hl sk repl down pre res hs k]
+  rw [this]
 
 /-! Non-vacuity: concrete instances of the hypotheses and of the interesting cases. -/
 
@@ -303,5 +329,31 @@ example :
     v.header.vals [83, 101, 116, 45, 67, 111, 111, 107, 105, 101] = [[97], [98]] ∧
     v.header.vals [67, 111, 110, 116, 101, 110, 116, 45, 84, 121, 112, 101] = [[112]] ∧
     v.header.vals sServer = [] := by decide
+
+/-- test: one announced trailer (X-Sum) and one unannounced (Grpc-Status) -/
+def exampleTrailerResponse : Response :=
+  { exampleResponse with
+    announced := [[88, 45, 83, 117, 109]],
+    trailer := [([88, 45, 83, 117, 109], [[97, 98]]), ([71, 114, 112, 99, 45, 83, 116, 97, 116, 117, 115], [[48]])] }
+
+theorem has_of_keys {h : Hdr} {P : Str → Prop} (hk : ∀ k ∈ h.keys, P k) : ∀ k, h.has k = true → P k :=
+  fun k hh => hk k ((mem_keys h k).mpr hh)
+
+example : TrailerSide (mergedHeader hop skip id [] [] exampleTrailerResponse) exampleTrailerResponse := by
+  refine ⟨⟨?_, ?_⟩, ?_, ?_, ?_, has_of_keys ?_, ?_, ?_⟩
+  · unfold CanonicalKeys; decide
+  · unfold Hdr.NoEmpty; decide
+  · decide
+  · decide
+  · decide
+  · decide
+  · decide
+  · decide
+/-- test: both trailers reach the client (through the prefixed keys, since one was unannounced) -/
+example :
+    let v := respond hop skip id [] [] exampleTrailerResponse
+    (clientTrailers v).vals [88, 45, 83, 117, 109] = [[97, 98]] ∧
+    (clientTrailers v).vals [71, 114, 112, 99, 45, 83, 116, 97, 116, 117, 115] = [[48]] ∧
+    v.header.vals sTrailer = [[88, 45, 83, 117, 109]] := by decide
 
 end Casket.Props.C04
